@@ -199,7 +199,12 @@ def run_master_case(case):
         t  = copy.deepcopy(dicts[uid])
         ec = info[uid]['exit']
         if ec is None:
-            t.pop('exit_code', None)         # e.g. the worker's dispatch-error path
+            # e.g. the worker's dispatch-error path: the request comes back as it went out
+            # (Task.as_dict() carries 'exit_code': None); a few results lack the key altogether
+            if info[uid].get('drop_key'):
+                t.pop('exit_code', None)
+            else:
+                t['exit_code'] = None
             t['exception'] = 'OSError(11)'
         else:
             t['exit_code'] = ec
@@ -284,7 +289,8 @@ def run_master_case(case):
                 if ec is not None:
                     ec = int(ec)
                 info[td.uid] = {'mode': r.get('mode') if r.get('mode') in MODES else 'executable',
-                                'via': r['via'], 'exit': ec}
+                                'via': r['via'], 'exit': ec,
+                                'drop_key': bool(r.get('drop_key'))}
                 uids.append(td.uid)
                 tds.append((td, r['via']))
             try:
